@@ -12,7 +12,8 @@ import v4_util as V4
 from fracexec import frac_str, frac_list
 
 MODULE = 'UwgVerif.Props.C20'
-THEOREMS = ['Uwg.C20.procmat_preserves', 'Uwg.C20.procmat_preserves_measure', 'Uwg.C20.procmat_shape',
+THEOREMS = ['Uwg.C20.procmat_preserves', 'Uwg.C20.procmat_preserves_measure', 'Uwg.C20.procmat_preserves_thick',
+            'Uwg.C20.procmat_preserves_thick_measure', 'Uwg.C20.procmat_shape',
             'Uwg.C20.asis_thin_layer_shrinks', 'Uwg.C20.pad_index', 'Uwg.C20.pad_total',
             'Uwg.C20.column_index_set']
 EPW = 'resources/SGP_Singapore.486980_IWEC.epw'
@@ -437,12 +438,17 @@ def run(chk):
                    classify=lambda l, a: 'single' if l.count(';') == 0 else 'multi')
     bad = 0
     for d, k, c, r, pick in meta:
-        if r is None or min(d) < F(1, 100):
+        if r is None or (min(d) < F(1, 100) and len(d) == 1):
             continue
         th, kk, cc = r
-        ok = (sum(th) == sum(d) and sum(t / x for t, x in zip(th, kk)) == sum(t / x for t, x in zip(d, k))
-              and sum(t * x for t, x in zip(th, cc)) == sum(t * x for t, x in zip(d, c))
-              and len(th) >= 2 and max(th) <= F(1, 20))
+        # (round 8) a multi-layer construction with thinner layers among the others: the property speaks about the
+        # layers of at least 1 cm - each keeps ITS OWN material (theorem procmat_preserves_thick)
+        thick = [(t, x, y) for t, x, y in zip(d, k, c) if t >= F(1, 100)] if len(d) > 1 else list(zip(d, k, c))
+        mixed = len(thick) < len(d)
+        ok = (sum(th) == sum(t for t, _, _ in thick)
+              and sum(t / x for t, x in zip(th, kk)) == sum(t / x for t, x, _ in thick)
+              and sum(t * x for t, x in zip(th, cc)) == sum(t * y for t, _, y in thick)
+              and (mixed or len(th) >= 2) and (not th or max(th) <= F(1, 20)))
         if not ok:
             bad += 1
             if bad <= 3:
@@ -451,10 +457,15 @@ def run(chk):
                                     'c': [str(x) for x in c],
                                     'Material object used by each layer (same number = same object)': pick},
                               observed={'thickness': [str(x) for x in th]},
-                              expected='same total thickness/resistance/capacity, >=2 sub-layers, each <= 5 cm')
-    chk.direct('procmat-oracle(UWG._procmat)', len(meta), sum(1 for m in meta if m[3] and min(m[0]) >= F(1, 100)),
-               'T1/T2 evaluated on the exact result of the real _procmat for every generated list '
-               'whose layers are all >= 1 cm', mismatches=bad)
+                              expected='total thickness / resistance / capacity of the layers of at least 1 cm, >=2 '
+                                       'sub-layers, each <= 5 cm')
+    chk.direct('procmat-oracle(UWG._procmat)', len(meta),
+               sum(1 for m in meta if m[3] and (min(m[0]) >= F(1, 100) or len(m[0]) > 1)),
+               'T1/T2 evaluated on the exact result of the real _procmat for every generated list: all layers >= 1 cm, '
+               'and multi-layer lists with thinner layers among the others (the totals of the layers of at least 1 cm, '
+               'each with its own material: theorem procmat_preserves_thick)', mismatches=bad,
+               branches={'multi-layer lists with a layer below 1 cm': sum(1 for m in meta if m[3] and len(m[0]) > 1
+                                                                          and min(m[0]) < F(1, 100))})
 
     # --- tie 2: ground columns after the fractionised generate() on synthetic EPW headers
     work = chk.work()
